@@ -10,7 +10,7 @@ flock 8
 SCRATCH=/dev/shm/verif-instr-t-$$
 trap 'rm -rf "$SCRATCH"' EXIT
 (cd "$VERIF_DIR/instr" && go build -o "$VERIF_DIR/bin/instr" .)
-"$VERIF_DIR/bin/instr" -detmaps -track github.com/sdcio/data-server/pkg/tree,github.com/sdcio/data-server/pkg/types -repo /repo -rt "$VERIF_DIR/rt" -out "$SCRATCH" ./pkg/tree ./pkg/types ./pkg/datastore/clients/schema >&2
+"$VERIF_DIR/bin/instr" -detmaps -track github.com/sdcio/data-server/pkg/tree,github.com/sdcio/data-server/pkg/types,github.com/sdcio/data-server/pkg/datastore/clients/schema -repo /repo -rt "$VERIF_DIR/rt" -out "$SCRATCH" ./pkg/tree ./pkg/types ./pkg/datastore/clients/schema >&2
 cd "$VERIF_DIR/harness"
 go build -tags "verif verifsched" -overlay "$SCRATCH/overlay.json" -o "$VERIF_DIR/bin/vcheck-t" ./cmd/vcheck
 # supplementary free-running pass: the same harness without instrumented sources, with the Go race detector
